@@ -28,21 +28,21 @@ type edge struct {
 }
 
 type edgeVerdict struct {
-	N      int    `json:"n"`
-	P      []int  `json:"p"`
-	I      int    `json:"i"`
-	Shape  string `json:"shape"`
-	Ref    bool   `json:"ref"`    // the reference (dynamicpb) reaches the model's target state
-	Fresh  bool   `json:"fresh"`  // pulsar Unmarshal(path ++ record) reaches it
-	Merge  bool   `json:"merge"`  // pulsar Unmarshal(path) then Merge-Unmarshal(record) reaches it
-	Fast   bool   `json:"fast"`   // pulsar's own reflection shows the same state
-	Enc    bool   `json:"enc"`    // deterministic bytes of the decoded message = model bytes
-	Size   bool   `json:"size"`   // proto.Size = model size
-	RefEnc bool   `json:"refenc"` // reference deterministic bytes = model bytes
-	RT     bool   `json:"rt"`     // pulsar's own bytes decode (pulsar) to the same state again
-	Disc   bool   `json:"disc"`   // pulsar DiscardUnknown decode = model state stripped of unknowns
-	RefDisc bool  `json:"refdisc"`
-	Note   string `json:"note,omitempty"`
+	N       int    `json:"n"`
+	P       []int  `json:"p"`
+	I       int    `json:"i"`
+	Shape   string `json:"shape"`
+	Ref     bool   `json:"ref"`    // the reference (dynamicpb) reaches the model's target state
+	Fresh   bool   `json:"fresh"`  // pulsar Unmarshal(path ++ record) reaches it
+	Merge   bool   `json:"merge"`  // pulsar Unmarshal(path) then Merge-Unmarshal(record) reaches it
+	Fast    bool   `json:"fast"`   // pulsar's own reflection shows the same state
+	Enc     bool   `json:"enc"`    // deterministic bytes of the decoded message = model bytes
+	Size    bool   `json:"size"`   // proto.Size = model size
+	RefEnc  bool   `json:"refenc"` // reference deterministic bytes = model bytes
+	RT      bool   `json:"rt"`     // pulsar's own bytes decode (pulsar) to the same state again
+	Disc    bool   `json:"disc"`   // pulsar DiscardUnknown decode = model state stripped of unknowns
+	RefDisc bool   `json:"refdisc"`
+	Note    string `json:"note,omitempty"`
 }
 
 func shapeOf(md protoreflect.MessageDescriptor, rec []byte) string {
